@@ -52,7 +52,7 @@ for w in ('remove', 'swap_remove'):
 CATALOG['ref.map'] = lambda f, s, n: scenarios.ref_map(f, s, n, which='map')
 CATALOG['clone'] = lambda f, s, n: scenarios.ref_map(f, s, n, which='clone', name='clone')
 
-for nm, lo, hi in (('hex.small', 0, 15), ('hex.medium', 16, 1024), ('hex.large', 1025, 4200)):
+for nm, lo, hi in (('hex.small', 0, 15), ('hex.medium', 16, 1024), ('hex.large', 1025, 4200), ('hex.xlarge', 4201, 8300)):
     CATALOG[nm] = (lambda nm, lo, hi: lambda f, s, n: scenarios.hex_arith(f, s, n, lo=lo, hi=hi, name=nm))(nm, lo, hi)
 
 CATALOG['zip.owned_ref'] = lambda f, s, n: scenarios.zip_mixed(f, s, n, which='owned_ref', name='zip.owned_ref')
